@@ -1124,10 +1124,16 @@ func (v *VMValue) AttrGet(ctx *Context, name string) *VMValue {
 			var ok bool
 			p1 := v
 			p1x := a
+			// 原型链可能成环（a.__proto__ = a），走过的节点不再走第二遍
+			var visited map[any]bool
 
 			for {
-				if p1, ok = p1x.Load("__proto__"); ok && p1.TypeId == VMTypeDict {
+				if p1, ok = p1x.Load("__proto__"); ok && p1.TypeId == VMTypeDict && !visited[p1.Value] {
 					var exists bool
+					if visited == nil {
+						visited = map[any]bool{v.Value: true}
+					}
+					visited[p1.Value] = true
 					p1x = (*VMDictValue)(p1)
 					ret, exists = p1x.Load(name)
 
